@@ -1315,6 +1315,7 @@ int QSexact_verify (
 )
 {
    int rval = 0;
+   QSbasis *dbasis = 0;
 
    //assert(basis);
    //assert(basis->nstruct);
@@ -1358,9 +1359,12 @@ int QSexact_verify (
             x_mpq = QScopy_array_dbl_mpq(x_dbl);
             y_mpq = QScopy_array_dbl_mpq(y_dbl);
             
-            /* test optimality of constructed solution */
-            basis = dbl_QSget_basis(p_dbl);
-            rval = QSexact_optimal_test(p_mpq, x_mpq, y_mpq, basis);
+            /* test optimality of constructed solution (with the basis the double
+             * solver ended in; the caller's basis stays the one tested below) */
+            dbasis = dbl_QSget_basis(p_dbl);
+            rval = QSexact_optimal_test(p_mpq, x_mpq, y_mpq, dbasis);
+            mpq_QSfree_basis(dbasis);
+            dbasis = 0;
             if( rval )
             {
                *result = 1;
@@ -1410,8 +1414,10 @@ int QSexact_verify (
             mpq_EGlpNumSet(y_mpq[i], dbl_d_sol[i]);
             
          /* test optimality of constructed solution */
-         basis = dbl_QSget_basis(p_dbl);
-         rval = QSexact_optimal_test(p_mpq, x_mpq, y_mpq, basis);
+         dbasis = dbl_QSget_basis(p_dbl);
+         rval = QSexact_optimal_test(p_mpq, x_mpq, y_mpq, dbasis);
+         mpq_QSfree_basis(dbasis);
+         dbasis = 0;
          if( rval )
          {
             *result = 1;
